@@ -359,6 +359,10 @@ func c06Run(c *vk.Ctx) {
 	mgrKeys := RandKeys(r, 3, nil, 0)
 	mgrRig := &c06Rig{name: "3keys/nocache/listener-manager", keys: mgrKeys,
 		rig: StartTCPRig(mgrKeys, TCPRigOpts{Timeout: c06T, ViaManager: true, ManagerAddr: fmt.Sprintf("203.0.113.10:%d", freePort())})}
+	// a service without any key (services: entry with keys: []): everything is a probe there
+	noKeys := &c06Rig{name: "0keys/nocache", keys: []KeySpec{{ID: "not-configured", Cipher: pick(r, cipherNames), Secret: randSecret(r)}},
+		rig: StartTCPRig(nil, TCPRigOpts{Timeout: c06T})}
+	defer noKeys.rig.Close(5 * time.Second)
 	rigs := []*c06Rig{
 		mgrRig,
 		mk("1key/nocache", 1, false, false, []string{pick(r, cipherNames)}),
@@ -466,6 +470,24 @@ func c06Run(c *vk.Ctx) {
 		pc := probeCase{ID: nextID(c.Batch), Class: "deadline-comparison", Cipher: rg.keys[0].Cipher, Len: l, Rig: rg.name}
 		in := randBytes(r, l)
 		jobs = append(jobs, func(jr *rand.Rand) bool { return c06Unauth(c, jr, rg, hub, pc, in) })
+	}
+	for i := 0; i < c.N(8, 30); i++ {
+		k := noKeys.keys[0]
+		pc := probeCase{ID: nextID(c.Batch), Class: "service-without-keys", Cipher: k.Cipher, FIN: i%3 == 0, Rig: noKeys.name}
+		var in []byte
+		if i%2 == 0 {
+			in, _ = c06BuildValid(r, k, hub.Port, pc.ID, 60) // a perfectly formed stream under a key nobody configured
+		} else {
+			in = randBytes(r, pick(r, []int{0, 10, 50, 200}))
+		}
+		pc.Len = len(in)
+		jobs = append(jobs, func(jr *rand.Rand) bool {
+			ok := c06Unauth(c, jr, noKeys, hub, pc, in)
+			if ok {
+				c.Count("probes_on_a_service_without_keys", 1)
+			}
+			return ok
+		})
 	}
 	classes := []string{"corrupt-data-chunk-mid-relay", "corrupt-length-mid-relay", "corrupt-address-chunk", "unparseable-address-type", "truncated-address-then-garbage"}
 	for i := 0; i < c.N(20, 100); i++ {
@@ -656,6 +678,7 @@ func init() {
 			c.Require("deadline_comparisons")
 			c.Require("probes_after_many_failures_absorbed")
 			c.Require("legitimate_exchanges_alongside_probes")
+			c.Require("probes_on_a_service_without_keys")
 			c06Run(c)
 		},
 	})
